@@ -2,7 +2,7 @@
    separately.  Statements only; proofs in Proofs/CoringFacts.v, CoringWrap.v *)
 From Coq Require Import List ZArith Arith Bool.
 From MsmV Require Import Lib.Result Lib.PyList Lib.Sorting Model.Labels Model.StateTraj Model.Coring.
-From MsmV Require Import Proofs.LabelsFacts Proofs.CoringFacts Proofs.CoringWrap.
+From MsmV Require Import Proofs.LabelsFacts Proofs.CoringFacts Proofs.CoringWrap Proofs.RunsFacts.
 Import ListNotations.
 Local Open Scope nat_scope.
 
@@ -83,6 +83,12 @@ Theorem wrapper_spec : forall ts lag iter,
     else coring_kernel ts (Z.to_nat lag) iter.
 Proof. exact dynamical_coring_wrapper. Qed.
 Print Assumptions wrapper_spec.
+
+(* "every frame lies in a block of m equal frames" is the same as "every maximal constant run
+   has length >= m": the executable run-length test (used on the implementation's output) decides it *)
+Theorem runs_geb_decides : forall m t, 1 <= m -> (runs_geb m t = true <-> runs_ge m t).
+Proof. exact runs_geb_iff. Qed.
+Print Assumptions runs_geb_decides.
 
 (* non-vacuity *)
 Example coring_example :
